@@ -82,7 +82,7 @@ fn c04_dense_hash_set_union_matches_bitset() {
     kani::cover!(b1 != 0 && a0 != 0);
 }
 /// iter yields exactly the members, ascending, each once (injected two-word set with <= 3 members).
-// @verif props=C04,C05,C15 fns=DenseHashSet::iter
+// @verif props=C04,C05,C15 fns=DenseHashSet::iter quick=C04
 #[kani::proof]
 #[kani::unwind(6)]
 fn c04_dense_hash_set_iter_yields_members_once() {
